@@ -129,6 +129,10 @@ def programs():
     rep2 = fn([("r", ("vmap", D1, (False, False), N), [v(0), c(Fr(1, 2))])], ("sum", v(1)))
     P.append(("vmap-of-cond-vector-branches",
               fn([("m", ("vmap", ("cond", rep, rep2), (True, False), N), [v(2), v(0)])], half(("sum", v(3)))), [zv0, zv1]))
+    # 12-14. TOP-LEVEL combinators (the trace handed to the user IS the combinator's trace: stored args, convenience update)
+    P.append(("top-scan", ("scan", step(1), N), [[Fr(1, 2), [Fr(1, 4), Fr(-3, 4)]], [Fr(-1, 4), [Fr(-1, 2), Fr(5, 4)]]]))
+    P.append(("top-vmap", ("vmap", two, (True, False), N), [[[Fr(1, 4), Fr(-3, 4)], Fr(1, 2)], [[Fr(-1, 2), Fr(5, 4)], Fr(-1, 4)]]))
+    P.append(("top-cond", ("cond", nested(0), nested(1)), [[Fr(1), Fr(3, 4)], [Fr(0), Fr(-1, 4)]]))
     return P
 
 
@@ -162,8 +166,8 @@ def scripts(prop, g, variants):
         return [[("generate", full0, a0), ("generate", None, a0), ("generate", _subset(g, _values(g, 0), 2, 0), a0),
                  ("generate", _subset(g, _values(g, 1), 2, 1), a1), ("generate", _subset(g, _values(g, 2), 3, 0), a1)]]
     if prop == "C03":
-        return [[("simulate", a0), ("update", None, a1), ("update", _subset(g, _values(g, 1), 2, 0), a1),
-                 ("update", _subset(g, _values(g, 2), 3, 1), a0), ("update", None, a0)],
+        return [[("simulate", a0), ("update", None, a1), ("update", _subset(g, _values(g, 1), 2, 0), a1, "conv"),
+                 ("update", _subset(g, _values(g, 2), 3, 1), a0), ("update", None, a0), ("update", _subset(g, _values(g, 0), 2, 1), a0, "conv")],
                 [("generate", full0, a1), ("update", _subset(g, _values(g, 1), 2, 1), a0), ("update", full1, a1)]]
     sp = _first_path_selection(g)
     deep = sp[0]
@@ -181,7 +185,7 @@ def scripts(prop, g, variants):
         return [ops]
     if prop == "C05":
         ops = [("generate", _subset(g, _values(g, 0), 2, 0), a0)]
-        ops += [("regenerate", sels[0], a0), ("update", None, a1), ("regenerate", sels[1], a1),
+        ops += [("regenerate", sels[0], a0), ("update", None, a1), ("update", _subset(g, _values(g, 2), 2, 0), a1, "conv"), ("regenerate", sels[1], a1),
                 ("update", _subset(g, _values(g, 1), 2, 1), a1), ("regenerate", sels[2] if len(sels) > 2 else ("all",), a0),
                 ("update", None, a0), ("update", None, a1)]
         return [ops]
@@ -196,6 +200,46 @@ def run(ctx, G, prop, shard, nshards):
         if i % nshards != shard:
             continue
         for ops in scripts(prop, g, variants):
+            if g[0] == "vmap":
+                ops = [op[:3] for op in ops]      # explicit arguments only; the convenience form is probed separately below
             gfi_run.check_case(ctx, G, g, ops, roundtrip=(prop == "C03"), label=f"{prop}-corpus:{name}")
             ctx.count(f"corpus:{name}")
             ctx.case(sample=None, nontrivial_key=("corpus", name, prop, len(ops)))
+        if name == "top-vmap" and prop in ("C03", "C05"):
+            vmap_trace_probe(ctx, G)
+
+
+def vmap_trace_probe(ctx, G):
+    """Known finding vmap-trace-no-wrapper: the trace of a top-level Vmap is the batched callee trace, so
+    `trace.update(constraints)` (and everything else that asks the trace for its generative function / arguments)
+    runs the CALLEE un-vectorised on batched data. Compared here with the explicit `vm.update(trace, constraints, *args)`."""
+    import jax.numpy as jnp
+    import jax.random as jr
+    import numpy as np
+    import impl
+    from genjax import gen, normal
+
+    @gen
+    def callee(m, s):
+        a = normal(m, s) @ "a"
+        return jnp.sum(a) + a          # mixes lanes unless it really runs per lane
+
+    ms = jnp.array([0.0, 1.0, -1.0])
+    vm = callee.vmap(in_axes=(0, None))
+    case = {"kind": "vmap-trace-convenience", "program": "callee.vmap(in_axes=(0, None)) at top level", "op": "trace.update({a: a + 0.5})"}
+    try:
+        tr = G.seed(vm.simulate)(jr.key(3), ms, 1.5)
+        new = {"a": tr.get_choices()["a"] + 0.5}
+        t1, w1, _ = vm.update(tr, new, ms, 1.5)
+        t2, w2, _ = tr.update(new)
+        same = np.shape(w2) == () and abs(float(w1) - float(w2)) < 1e-4 and np.allclose(np.asarray(t1.get_retval()), np.asarray(t2.get_retval()), atol=1e-5)
+        if not same:
+            ctx.property_failure("vmap-trace-no-wrapper",
+                                 f"trace.update(constraints) on a top-level Vmap trace: weight {np.asarray(w2).tolist()} / retval {np.asarray(t2.get_retval()).tolist()} "
+                                 f"differ from vm.update(trace, constraints, *args): weight {float(w1)} / retval {np.asarray(t1.get_retval()).tolist()}",
+                                 case, matches_asis=(np.shape(w2) == (3,)))
+    except Exception as e:
+        impl.reset_handlers()
+        ctx.property_failure(None, f"trace.update on a top-level Vmap trace raised {type(e).__name__}: {str(e)[:150]}", case)
+    ctx.case(nontrivial_key=("vmap-trace-probe",))
+    ctx.count("corpus:vmap-trace-probe")
